@@ -1,6 +1,6 @@
 (* Request decoding / result encoding for the object-level complex views. *)
 From Coq Require Import String List NArith ZArith Bool Arith.
-From DSD Require Import Base.Str Base.Errors Base.Val Model.ComplexUtils Model.DispatchCU Model.Loops.
+From DSD Require Import Base.Str Base.Errors Base.Val Model.ComplexUtils Model.DispatchCU Model.Loops Model.SplitRuns.
 Import ListNotations.
 Local Open Scope string_scope.
 
@@ -52,6 +52,14 @@ Definition dispatch_loops (op : pstr) (a : val) : option val :=
       let '(outs, o, runs, objs) := split_history pre self in
       Some (VList [of_list of_out outs; of_out o;
                    of_opt (of_pair of_run of_run) runs; of_objs objs])
+    | _ => None end))
+  else if op_is op "cx_split_runs" then Some (or_bad (
+    match a with VList [pre; self; runs] =>
+      do pre <- as_listof as_item pre; do self <- as_item self;
+      do runs <- as_listof (as_pair (as_opt as_nat) (as_opt as_nat)) runs;
+      let '(outs, o, rs, objs) := split_history_runs pre self runs in
+      Some (VList [of_list of_out outs; of_out o;
+                   of_opt (of_res (of_list (of_pair of_nats (of_opt err)))) rs; of_objs objs])
     | _ => None end))
   else if op_is op "split_in_domain" then Some (or_bad (
     do pt <- as_tab a; Some (VBool (split_in_domain (S (length pt)) pt))))
